@@ -114,6 +114,7 @@ func main() {
 			for i, f := range files {
 				nMap += rewriteMapRanges(f, info)
 				insertYields(fset, f, rel)
+				rewriteGoStmts(f, info)
 				for _, decl := range f.Decls {
 					gd, ok := decl.(*ast.GenDecl)
 					if !ok || gd.Tok != token.VAR {
@@ -222,6 +223,63 @@ func yieldStmt(fset *token.FileSet, rel string, pos token.Pos, kind string) ast.
 
 var nGoStmts int
 
+// rewriteGoStmts (P-go): `go f(a, b)` becomes
+//
+//	go zzsimrt.Go(func() func() { zzf, zza0, zza1 := f, a, b; return func() { zzf(zza0, zza1) } }())
+//
+// The function value and the arguments are still evaluated by the goroutine that executes the
+// go statement (the outer literal runs there); the new goroutine announces itself to the
+// simulation runtime, which keeps it out of the scheduler: a goroutine the library starts is
+// not a party of the simulation, it runs under the Go runtime's own scheduling. Constant
+// arguments are not hoisted (an untyped constant must keep converting to the parameter type).
+// Runs after insertYields, so the wrapper literals carry no yield of their own.
+func rewriteGoStmts(f *ast.File, info *types.Info) {
+	ast.Inspect(f, func(n ast.Node) bool {
+		g, ok := n.(*ast.GoStmt)
+		if !ok {
+			return true
+		}
+		call := g.Call
+		if tv, ok := info.Types[call.Fun]; ok && (tv.IsBuiltin() || tv.IsType()) {
+			return true
+		}
+		var lhs, rhs []ast.Expr
+		lhs = append(lhs, ast.NewIdent("zzf"))
+		rhs = append(rhs, call.Fun)
+		var args []ast.Expr
+		for i, a := range call.Args {
+			if tv, ok := info.Types[a]; ok && (tv.Value != nil || tv.IsNil()) {
+				args = append(args, a)
+				continue
+			}
+			if _, isLit := a.(*ast.BasicLit); isLit {
+				args = append(args, a)
+				continue
+			}
+			id := ast.NewIdent(fmt.Sprintf("zza%d", i))
+			lhs = append(lhs, id)
+			rhs = append(rhs, a)
+			args = append(args, ast.NewIdent(id.Name))
+		}
+		inner := &ast.FuncLit{
+			Type: &ast.FuncType{Params: &ast.FieldList{}},
+			Body: &ast.BlockStmt{List: []ast.Stmt{&ast.ExprStmt{X: &ast.CallExpr{Fun: ast.NewIdent("zzf"), Args: args, Ellipsis: call.Ellipsis}}}},
+		}
+		outer := &ast.FuncLit{
+			Type: &ast.FuncType{Params: &ast.FieldList{}, Results: &ast.FieldList{List: []*ast.Field{{Type: &ast.FuncType{Params: &ast.FieldList{}}}}}},
+			Body: &ast.BlockStmt{List: []ast.Stmt{
+				&ast.AssignStmt{Lhs: lhs, Tok: token.DEFINE, Rhs: rhs},
+				&ast.ReturnStmt{Results: []ast.Expr{inner}},
+			}},
+		}
+		g.Call = &ast.CallExpr{
+			Fun:  &ast.SelectorExpr{X: ast.NewIdent("zzsimrt"), Sel: ast.NewIdent("Go")},
+			Args: []ast.Expr{&ast.CallExpr{Fun: outer}},
+		}
+		return true // go statements nested in the launched function literal are rewritten too
+	})
+}
+
 func insertYields(fset *token.FileSet, f *ast.File, rel string) {
 	ast.Inspect(f, func(n ast.Node) bool {
 		switch x := n.(type) {
@@ -327,7 +385,10 @@ package zzsimrt
 
 import (
 	"cmp"
+	"runtime"
 	"slices"
+	"sync"
+	"sync/atomic"
 )
 
 // Hook is called at every P-yield site while a simulation is running.
@@ -350,21 +411,67 @@ func RegisterGlobal(name string, p any) { Globals = append(Globals, Global{name,
 
 func Y(site int32) {
 	if h := Hook; h != nil {
+		if live.Load() != 0 && inChild() {
+			return // a goroutine the library started itself: not a party of the simulation
+		}
 		h(site)
 	}
 }
+
+// P-go: goroutines started by the library announce themselves; yields and seeded map orders
+// do not apply to them (they run under the Go runtime's own scheduling).
+var (
+	live     atomic.Int32
+	children sync.Map // goroutine id -> struct{}
+)
+
+func goid() uint64 {
+	var b [64]byte
+	n := runtime.Stack(b[:], false)
+	var id uint64
+	for _, c := range b[len("goroutine "):n] {
+		if c < '0' || c > '9' {
+			break
+		}
+		id = id*10 + uint64(c-'0')
+	}
+	return id
+}
+
+func inChild() bool {
+	_, ok := children.Load(goid())
+	return ok
+}
+
+// Go runs fn in the goroutine a rewritten go statement has just started.
+func Go(fn func()) {
+	id := goid()
+	children.Store(id, struct{}{})
+	live.Add(1)
+	defer func() {
+		live.Add(-1)
+		children.Delete(id)
+	}()
+	fn()
+}
+
+// LiveChildren reports how many library-started goroutines are running now.
+func LiveChildren() int { return int(live.Load()) }
 
 // Keys returns the keys of m in an order chosen by the simulator: sorted, then permuted.
 // Iterating over them, skipping keys deleted meanwhile, is one of the executions Go's
 // own range statement permits.
 func Keys[M ~map[K]V, K cmp.Ordered, V any](m M) []K {
-	MapRanges++
+	child := live.Load() != 0 && inChild()
+	if !child {
+		MapRanges++
+	}
 	ks := make([]K, 0, len(m))
 	for k := range m {
 		ks = append(ks, k)
 	}
 	slices.Sort(ks)
-	if p := Perm; p != nil && len(ks) > 1 {
+	if p := Perm; p != nil && len(ks) > 1 && !child {
 		perm := p(len(ks))
 		out := make([]K, len(ks))
 		for i, j := range perm {
